@@ -34,6 +34,8 @@ mod pie;
 mod context;
 mod store;
 mod dependency;
+#[cfg(feature = "gohla_pie_verif")]
+pub mod verif;
 
 /// Trait alias for types that are used as values: types that can be cloned, debug formatted, and contain no
 /// non-`'static` references. We use this as an alias for trait bounds and super-traits.
